@@ -793,6 +793,49 @@ def rules(rep, m):
     siftrules.check_scans(rep, r9, m)
 
 
+    # R-C02-11 -----------------------------------------------------------
+    r11 = rep.rule("R-C02-11", "initialize establishes the empty structure whatever the record held before (reset = terminate + "
+                   "initialize on the same record; the classes built on the hashheap are terminated and initialised again by "
+                   "their users): on every path it stores every field of struct cmi_hashheap - the count 0 - except the key "
+                   "counter, which keeps counting so that handles from before stay invalid", floor=8)
+    KEEPS = {"item_counter": "handles are never reused, also across a reset"}
+    ini = m.need("cmi_hashheap_initialize")
+    icx = FuncCtx(m, ini)
+    ihp = ini.params[0]["name"]
+    per_field = {}
+    whole = False
+    for l_, r_, k_, n_ in inv.stores(ini):
+        lc = icx.canon(l_)
+        if lc == "*" + ihp and k_ == "=":
+            whole = True
+        mm = re.fullmatch(re.escape(ihp) + r"->(\w+)", lc)
+        if mm and k_ == "=":
+            per_field.setdefault(mm.group(1), []).append((inv.dominating_conditions(icx, ini, n_), r_))
+    for c_ in walk(ini.body):
+        if c_["kind"] == "CallExpr" and callee_ref(c_) in ("memset", "cmi_memset") and icx.canon(kids(c_)[1]) == ihp and \
+                "sizeof" in render(kids(c_)[3]):
+            whole = True
+    for fname_, ft_, fd_ in m.records["cmi_hashheap"]:
+        if fname_ in KEEPS:
+            r11.instance("field %s: kept (%s)" % (fname_, KEEPS[fname_]))
+            r11.ok()
+            continue
+        sts = per_field.get(fname_, [])
+        always = whole or any(not cd for cd, _ in sts) or \
+            any(len(c1) == 1 and [inv._neg(c1[0])] == c2 for c1, _ in sts for c2, _ in sts)
+        okv = True
+        if fname_ == "heap_count":
+            okv = whole or all(int_value(strip(r_, casts=True)) == 0 for _, r_ in sts)
+        r11.instance("field %s: stored on every path: %s" % (fname_, always))
+        if not always or not okv:
+            rep.finding(r11, ini.name, "init:field-left:" + fname_, "cmi_hashheap_initialize does not set '%s'%s on every path: "
+                        "a record that was used before (reset, or terminate followed by initialize) keeps its old value - "
+                        "with a stale count the empty heap reports phantom entries and the next growth check aborts"
+                        % (fname_, " to 0" if fname_ == "heap_count" else ""), where=m.rel(ini.where))
+            r11.fail()
+        else:
+            r11.ok()
+
     # R-C02-10 -----------------------------------------------------------
     r10 = rep.rule("R-C02-10", "hash probing stays inside the map and both probers walk the same sequence: the start index has "
                    "at most log2(hash_size) bits (a 64-bit product shifted right by 64 - (heap_exp_cur + 1), with hash_size = "
